@@ -21,6 +21,7 @@ var (
 	skipC = !strings.Contains(os.Getenv("C11_CHECK_KNOWN"), "C")
 	skipD = !strings.Contains(os.Getenv("C11_CHECK_KNOWN"), "D")
 	skipR = !strings.Contains(os.Getenv("C11_CHECK_KNOWN"), "R")
+	skipH = !strings.Contains(os.Getenv("C11_CHECK_KNOWN"), "H")
 )
 
 func TestMain(m *testing.M) {
